@@ -350,8 +350,10 @@ def run_case(case):
                                                   s0["name"], C.short(arr.reshape(-1)[:5]), C.short(want.reshape(-1)[:5]))})
                     return res
         except Exception as e:  # noqa
-            res["violations"].append(C.exc_violation(ID, C.RockitRaised("solve/sol(stage)", e), mode))
-            return res
+            # (Opti cannot report values of symbols that appear in no row and not in the objective)
+            if "do not appear in the constraints and objective" not in str(e):
+                res["violations"].append(C.exc_violation(ID, C.RockitRaised("solve/sol(stage)", e), mode))
+                return res
     # the template can be cloned again
     if tmpl is not None:
         try:
